@@ -19,7 +19,7 @@ from .shard import Shard, dumps, jsonable
 VERIF = os.path.dirname(os.path.dirname(os.path.dirname(os.path.abspath(__file__))))
 EVIDENCE_DIR = os.path.join(VERIF, "evidence")
 REPLAY_DIR = os.path.join(VERIF, "replays")
-MAX_REPORTED = 8
+MAX_REPORTED = 5
 GLOBAL_OUTCOME_CAP = 3_000_000
 
 
@@ -38,10 +38,23 @@ _W = {}
 
 
 def _worker_init(prop, tier, root, mode):
+    # An exception escaping a Pool initializer makes the pool respawn workers forever: trap it and
+    # surface it as a harness error from the first task instead.
+    try:
+        _worker_init_inner(prop, tier, root, mode)
+    except BaseException:
+        _W["init_error"] = traceback.format_exc()
+
+
+def _worker_init_inner(prop, tier, root, mode):
     import warnings
     warnings.filterwarnings("ignore")
-    if VERIF not in sys.path:
-        sys.path.insert(0, VERIF)
+    # spawn copies the parent's sys.path into the child, so PYTHONPATH alone does not decide which
+    # tree is imported: put the tree under test first explicitly (PathFinder precedes the editable finder).
+    for p in (VERIF, root):
+        while p in sys.path:
+            sys.path.remove(p)
+        sys.path.insert(0, p)
     want = "1" if mode == "interp" else "0"
     assert os.environ.get("NUMBA_DISABLE_JIT", "0") == want, "worker started in the wrong numba mode"
     try:
@@ -62,6 +75,10 @@ def _worker_init(prop, tier, root, mode):
 
 def _worker_run(task):
     name, lo, hi = task
+    if "init_error" in _W:
+        out = Shard(name, lo, lo)
+        out.harness_error = "worker initialisation failed:\n" + _W["init_error"]
+        return out.to_dict()
     sp = _W["spaces"][name]
     keys, sigs = _W["known"]
     out = Shard(name, lo, hi, keys.keys(), sigs.keys())
@@ -183,6 +200,9 @@ def explore(prop, tier, seed, nproc, only=None, budget=None, log=sys.stderr):
                 done += 1
                 if sh.get("harness_error"):
                     harness_errors.append((sh["space"], sh["lo"], sh["hi"], sh["harness_error"]))
+                    if len(harness_errors) >= 3:
+                        caps.append("aborted after 3 harness errors")
+                        break
                 _merge(per_space[sh["space"]], sh)
                 if log and (done % max(1, len(tasks) // 10) == 0 or done == len(tasks)):
                     print("[%s %s %s] %d/%d shards, %.0fs" % (prop, tier, mode, done, len(tasks),
@@ -309,8 +329,11 @@ def run_check(prop, tier="quick", seed=0, nproc=None, only=None, budget=None, wr
     uniq = {}
     for v in sorted(total["violations"], key=lambda v: (v["space"], v["rank"], v["key"])):
         uniq.setdefault((v["space"], v["key"]), v)
-    for v in list(uniq.values())[:MAX_REPORTED]:
-        ok, seen = confirm(prop, tier, spaces, v)
+    cand = list(uniq.values())[:MAX_REPORTED]
+    from concurrent.futures import ThreadPoolExecutor
+    with ThreadPoolExecutor(max(1, len(cand))) as ex:
+        confirmed = list(ex.map(lambda v: confirm(prop, tier, spaces, v), cand))
+    for v, (ok, seen) in zip(cand, confirmed):
         if not ok:
             herrs.append((v["space"], v["rank"], v["rank"] + 1,
                           "violation %r not reproduced identically on replay (%r): nondeterminism in harness" % (v["key"], seen)))
